@@ -16,11 +16,21 @@ pub struct SymbolicContext { _p: u8 }
 #[derive(Clone, Copy)]
 pub struct VariableId { _p: usize }
 impl SymbolicContext { pub fn find_network_variable(&self, _name: &str) -> Option<VariableId> { unimplemented!() } }
+// further API surface with an empty contract (a changed function may start to call it)
+pub struct BddVariableSet { _p: u8 }
+#[derive(Clone, Copy)]
+pub struct BddVariable { _p: u16 }
+impl SymbolicContext { pub fn bdd_variable_set(&self) -> &BddVariableSet { unimplemented!() } }
+impl BddVariableSet { pub fn var_by_name(&self, _name: &str) -> Option<BddVariable> { unimplemented!() } }
 
 verus! {
 
 #[verifier::external_type_specification] #[verifier::external_body] pub struct ExSymbolicContext(SymbolicContext);
 #[verifier::external_type_specification] #[verifier::external_body] pub struct ExVariableId(VariableId);
+#[verifier::external_type_specification] #[verifier::external_body] pub struct ExBddVariableSet(BddVariableSet);
+#[verifier::external_type_specification] #[verifier::external_body] pub struct ExBddVariable(BddVariable);
+pub assume_specification[ SymbolicContext::bdd_variable_set ](c: &SymbolicContext) -> (r: &BddVariableSet);
+pub assume_specification[ BddVariableSet::var_by_name ](s: &BddVariableSet, name: &str) -> (r: Option<BddVariable>);
 pub uninterp spec fn prop_index(name: Seq<char>) -> Option<int>;
 pub assume_specification[ SymbolicContext::find_network_variable ](c: &SymbolicContext, name: &str) -> (r: Option<VariableId>)
     ensures r is Some <==> prop_index(name@) is Some;
